@@ -400,6 +400,12 @@ fn entry_type(i: usize) -> (EntryType, &'static str) {
         10 => t!(nested::inner::Beta<nested::Alpha>),
         11 => t!(u8),
         12 => t!(Box<str>),
+        // generic parameters that are generic themselves
+        14 => t!(Vec<Vec<u8>>),
+        15 => t!(Option<Vec<u8>>),
+        16 => t!(Result<Vec<u8>, String>),
+        17 => t!(nested::inner::Beta<Option<nested::Alpha>>),
+        18 => t!(Option<Vec<nested::inner::Beta<u8>>>),
         _ => t!(()),
     }
 }
